@@ -360,6 +360,7 @@ func checkC15(c *Ctx) {
 			c.undecided("C15.clone", "Sum methods", "none found", "")
 		}
 	}
+	checkSumDropped(c, p, "C15.clone")
 	// reset
 	c.resetRule(p, "internal/sha3", "State", []string{"Write", "Read"}, map[string]string{
 		"storage": "the buffer contents outside [bufo, bufe) are dead; Reset empties the window",
